@@ -20,7 +20,7 @@ RULE = ("configurations: subsets of {static PINN, boundary, parameter penalty, P
 ASSUMPTIONS = ["deterministic samplers only (grids, data loaders without shuffling), as the property states",
                "torn writes of the checkpoint file are Lightning's business and are not enumerated",
                "files are written below a per-item temporary directory that is removed afterwards"]
-BOUNDS = {"quick": {"N": [3, 5], "intervals": [1, 2, 3]}, "thorough": {"N": [3, 4, 5, 6], "intervals": [1, 2, 3]}}
+BOUNDS = {"quick": {"N": [3, 5], "intervals": [1, 2, 3]}, "thorough": {"N": [3, 4, 5, 6, 7, 8], "intervals": [1, 2, 3, 4]}}
 ITEM_LIMIT = {"quick": 1200, "thorough": 3600}
 
 CONFIGS = [["pinn_static"], ["pinn_static", "boundary"], ["pinn_param", "param_penalty"], ["adaptive_w", "pinn_static"],
